@@ -97,12 +97,43 @@ def variant_modules(rnd, quick):
         mods.append((n, open(os.path.join(env.VERIF, 'corpus', 'examples', n + '.wasm'), 'rb').read(), None))
     for named in ('all', 'some', 'dups', 'none'):
         mods.append(('manyf' + named, hostile.many_funcs(23, named).encode(), None))
+    for k in range(3 if quick else 12):
+        mods.append(('dseg%d' % k, dataseg_module(env.rng('c09-dseg', k))[0].encode(), ('dseg', k)))
     for k in range(3 if quick else 20):
         c = gen.build_program_module(env.rng('c09-gen', k), gen.Profile(), n_funcs=9)
         if k % 2:
             c.mod.func_names = {i + 2: 'g%d_%d' % (k, i) for i in range(0, 9, 2)}
         mods.append(('gen%d' % k, c.mod.encode(), (c, k)))
     return mods
+
+
+def dataseg_module(rnd, init_active=False):
+    """Module mixing passive and active data segments, memory.init users and readers (behaviour must not depend on -d)."""
+    m = Module()
+    m.mems.append((1, None, False))
+    m.exports.append(('mem', 'memory', 0))
+    n = rnd.randint(2, 6)
+    pos = 64
+    kinds = []
+    for k in range(n):
+        data = bytes(rnd.getrandbits(8) for _ in range(rnd.choice([1, 3, 17, 18, 19, 40, 300])))
+        if rnd.random() < 0.5 or k == 0:
+            m.datas.append(dict(mode='passive', bytes=data))
+            kinds.append(('passive', len(data)))
+        else:
+            m.datas.append(dict(mode='active', offset=[('i32.const', pos)], bytes=data))
+            kinds.append(('active', len(data)))
+            pos += len(data) + rnd.randint(0, 7)
+    for k in range(n):
+        # memory.init normally refers to passive segments; referring to an active (already dropped) one is valid only with
+        # length 0 and is exercised by a separate, explicitly keyed probe
+        if kinds[k][0] == 'passive' or init_active:
+            m.add_func([I32, I32, I32], [], [], [('local.get', 0), ('local.get', 1), ('local.get', 2), ('memory.init', k)], export='init%d' % k)
+    m.add_func([I32], [I32], [], [('local.get', 0), ('i32.load8_u', 0, 0)], export='load8')
+    for k in range(rnd.randint(0, 5)):
+        hostile.tiny_func(m, k, export='pad%d' % k)
+    m.datacount = True
+    return m, kinds
 
 
 def reference_variants(rnd, b):
@@ -244,6 +275,23 @@ def main(chk):
                     only_main = not any(PATTERN_IMPL.match(fn) for fn in files)
                     if only_main and any(dm.raw_bodies[i] not in rbodies for i in range(nf)) and funcs:
                         pass  # functions in the main file are neither s nor d: not judged
+            # d-mode: in external data-segment modes every segment's bytes must sit at the offset the init code uses
+            if 'gnu-ld' in opts and 'datasegments' in files and dm.datas:
+                main_c = files.get(mname + '.c', b'').decode('latin-1')
+                blob = files['datasegments']
+                loads = [(int(a), int(b_)) for a, b_ in re.findall(r'LOAD_DATA\([^;]*?ds\s*\+\s*(\d+),\s*(\d+)\)', main_c)]
+                li = 0
+                for k, seg in enumerate(dm.datas):
+                    if seg['mode'] == 'passive':
+                        mm = re.search(r'\bd%d\s*=\s*ds\s*\+\s*(\d+)' % k, main_c)
+                        off = int(mm.group(1)) if mm else None
+                    else:
+                        off = loads[li][0] if li < len(loads) else None
+                        li += 1
+                    if off is None or blob[off:off + len(seg['bytes'])] != seg['bytes']:
+                        res.append(('C09:dataseg-offset:%s' % seg['mode'], '%s: data segment %d (%s, %d bytes) is addressed at ds+%s but its bytes are not there in the datasegments file' % (
+                            desc, k, seg['mode'], len(seg['bytes']), off), wf))
+                        break
             # e: every emitted .c compiles on its own
             for fn in files:
                 if fn.endswith('.c'):
@@ -282,8 +330,19 @@ def main(chk):
         # f: behaviour of sampled variants
         if ctx is not None:
             c, k = ctx
-            plan = e2e.Plan(c.mod)
-            script, steps = progs.program_script(c, plan, env.rng('c09-script', k), vectors=4)
+            if c == 'dseg':
+                dmod, kinds = dataseg_module(env.rng('c09-dseg', k))
+                plan = e2e.Plan(dmod)
+                sl = ['I 0', 'w 0 0 0 2048']
+                for si, (kd, ln) in enumerate(kinds):
+                    if kd == 'passive':
+                        sl.append('c 0 %d %s 0x0 %s' % (plan.fk('init%d' % si), hex(3000 + 400 * si), hex(ln)))
+                        sl.append('c 0 %d %s %s %s' % (plan.fk('init%d' % si), hex(6000 + 400 * si), hex(ln // 2), hex(ln - ln // 2)))
+                sl += ['w 0 0 2900 4000', 'm 0 0']
+                script = '\n'.join(sl) + '\n'
+            else:
+                plan = e2e.Plan(c.mod)
+                script, steps = progs.program_script(c, plan, env.rng('c09-script', k), vectors=4)
             bd = os.path.join(mdir, 'beh-base')
             st, base_out, _ = e2e.build_and_run(w2c2, b, plan, script, bd, name=mname, opts=['-t', '1'], cflags=['-O1'])
             if st != 'ok':
@@ -323,6 +382,31 @@ def main(chk):
             chk.violation(key, what, files)
         if mi < 2:
             chk.sample({'module': tag, 'option_points': [' '.join(o) for o in obs[:6]]})
+
+    # ---- probe: memory.init naming an ACTIVE segment (valid; only length 0 is meaningful) under -d gnu-ld
+    pm, pk = dataseg_module(env.rng('c09-dseg-probe'), init_active=True)
+    pd = os.path.join(root, 'probe-init-active')
+    os.makedirs(pd, exist_ok=True)
+    pp = os.path.join(pd, 'pa.wasm')
+    open(pp, 'wb').write(pm.encode())
+    for popts in (['-d', 'gnu-ld'], ['-d', 'gnu-ld', '-f', '1', '-t', '2']):
+        pr, pfiles = run_variant(w2c2, pp, os.path.join(pd, 'o'), popts)
+        chk.ev()
+        chk.distinct(('probe-init-active', tuple(popts)))
+        bad = None
+        if pr.rc != 0:
+            bad = 'translator exit %s' % pr.rc
+        else:
+            for fn in pfiles:
+                if fn.endswith('.c'):
+                    cr = env.run(['gcc', '-fsyntax-only', '-std=gnu89', '-w', '-I', e2e.base_include(), '-I', os.path.join(pd, 'o'), os.path.join(pd, 'o', fn)], timeout=120)
+                    if cr.rc != 0:
+                        bad = '%s does not compile: %s' % (fn, cr.err[-300:])
+                        break
+        if bad:
+            chk.violation('C09:gnu-ld:memory.init-of-active-segment', 'module whose memory.init names an active data segment, options %s: %s' % (' '.join(popts), bad),
+                          {'module.wasm': pm.encode(), 'cmd.txt': 'w2c2 ' + ' '.join(popts)})
+    shutil.rmtree(pd, ignore_errors=True)
 
     # ---- h: TSan translator with yields at the hand-off points
     tsan = env.build_translator('tsan', guard=True)
